@@ -89,6 +89,12 @@ def build_series(cfg):
             # a coarse sensor (a few integer levels): many stacked windows are bit-identical and land in different clusters
             x = np.round(x / float(cfg["quantise"])) * float(cfg["quantise"])
         arr = x * scales + float(cfg.get("data_offset") or 0.0)
+        if cfg.get("series_dtype"):
+            # the element type / byte order the caller's recording happens to have (a file read with another endianness, single
+            # or half precision sensors); kept only if every value stays finite in that type
+            cast = arr.astype(cfg["series_dtype"])
+            if np.all(np.isfinite(cast.astype(np.float64))):
+                arr = cast
         if cfg.get("reuse_buffers"):
             from harness import buffers
             arr = buffers.reuse(f"e2e.series.{si}", arr)       # same array object as in earlier runs of this process
